@@ -69,6 +69,15 @@ def check_terminal_switch(ctx, c: dict, prop: str):
     saved_path = os.environ.get("PATH", "")
     tm = c.get("tmux")
     layers = int(tm["layers"]) if tm else 0
+    mode = {"all": (tm or {}).get("mode"), "now": "ok"}      # reachability of tmux: for every client / in force now
+
+    def set_mode(w):
+        m = mode["all"] or (tm["clients"][w].get("reach", "ok") if tm else "ok")
+        mode["now"] = m
+        if m == "ok":
+            os.environ.pop("FAKE_TMUX_MODE", None)
+        else:
+            os.environ["FAKE_TMUX_MODE"] = m
 
     def attach(w):
         """make `w` the current window: another X window, or (inside tmux) another attached client"""
@@ -76,6 +85,7 @@ def check_terminal_switch(ctx, c: dict, prop: str):
             cl = tm["clients"][w]
             os.environ["FAKE_TMUX_client_pid"] = str(cl["pid"])
             os.environ["FAKE_TMUX_client_termname"] = cl.get("termname", "xterm-kitty")
+            set_mode(w)
         else:
             os.environ["WINDOWID"] = w
 
@@ -83,8 +93,7 @@ def check_terminal_switch(ctx, c: dict, prop: str):
         os.environ["WINDOWID"] = "w0"
         cfg = dict(c.get("config", {}))
         if tm:
-            from .ptyhost import write_fake_tmux
-            write_fake_tmux(os.path.join(td, "bin"))
+            _write_modal_fake_tmux(os.path.join(td, "bin"))
             os.environ["PATH"] = os.path.join(td, "bin") + ":" + saved_path
             os.environ["FAKE_TMUX_pid"] = str(tm.get("server_pid", 4000))
             os.environ["FAKE_TMUX_session_id"] = tm.get("session", "$3")
@@ -94,16 +103,26 @@ def check_terminal_switch(ctx, c: dict, prop: str):
         log = U.EventLog()
         cmd = U.CapStream("cmd", log, tty())
         disp = U.CapStream("disp", log, tty())
-        if c.get("config_via") == "overrides":
-            t = tupimage.TupimageTerminal(out_command=cmd, out_display=disp, in_response=None, id_database=os.path.join(td, "s.db"),
-                                          config="DEFAULT", session_id="S", config_overrides=cfg)
-        else:
-            t = tupimage.TupimageTerminal(out_command=cmd, out_display=disp, in_response=None, id_database=os.path.join(td, "s.db"),
-                                          config="DEFAULT", session_id="S", **cfg)
+        try:
+            if c.get("config_via") == "overrides":
+                t = tupimage.TupimageTerminal(out_command=cmd, out_display=disp, in_response=None, id_database=os.path.join(td, "s.db"),
+                                              config="DEFAULT", session_id="S", config_overrides=cfg)
+            else:
+                t = tupimage.TupimageTerminal(out_command=cmd, out_display=disp, in_response=None, id_database=os.path.join(td, "s.db"),
+                                              config="DEFAULT", session_id="S", **cfg)
+        except Exception as ex:          # noqa: BLE001
+            if mode["now"] == "ok":
+                raise
+            # tmux cannot be reached while the object is created: refusing to start is fine, nothing was printed
+            ctx.count("tmux-unreachable:constructor-refused:" + type(ex).__name__)
+            if PLACEHOLDER.encode() in disp.value():
+                ctx.violation("a constructor that refused to work printed a placeholder", c, {"exception": repr(ex)[:200]},
+                              key="print-without-image" if prop != "C04" else "other-terminal-counts-as-uploaded")
+            return
         pool = _make_pool(td, c["pool"])
         windows = {"w0": SpecTerminal("w0", layers=layers)}
         cur = "w0"
-        pos = 0
+        pos = dpos = 0
         thr = (cfg.get("reupload_max_uploads_ago", 1024), cfg.get("reupload_max_bytes_ago", 20 * 1024 * 1024),
                cfg.get("reupload_max_seconds_ago", 3600) * 1_000_000)
         zero = 0 in thr
@@ -112,26 +131,99 @@ def check_terminal_switch(ctx, c: dict, prop: str):
             thr_j = (1024, 20 * 1024 * 1024, 3600 * 1_000_000)
         else:
             thr_j = thr
+        if "reupload_max_seconds_ago" in cfg:
+            ctx.count(f"configured-max-seconds:{cfg['reupload_max_seconds_ago']}")
+        # the request chain "same image, same geometry, same terminal, nothing but waits in between": (window, img, cols, rows) and the
+        # clock reading BEFORE the call of the chain that transmitted last (the recorded upload time is not earlier than that)
+        chain = None
+
+        def judge(iid, token, rows, cols, step, what):
+            r = d.ask(f"printok {thr_j[0]} {thr_j[1]} {thr_j[2]} {iid} {token} {rows} {cols} {clock.micros()} {windows[cur].wire_log()}")
+            if r.startswith("1"):
+                return
+            aged = False
+            if not zero:
+                # is the age clause alone what the terminal lost the image by?  (and is the age clear of the limit: the harness and the
+                # library read the clock a few ticks apart)
+                r_hi = d.ask(f"printok {thr_j[0]} {thr_j[1]} {thr_j[2] + AGE_GUARD_US} {iid} {token} {rows} {cols} {clock.micros()} {windows[cur].wire_log()}")
+                if r_hi.startswith("1"):
+                    ctx.count("age-within-guard-of-limit:not-judged")
+                    return
+                r_inf = d.ask(f"printok {thr_j[0]} {thr_j[1]} {10**15} {iid} {token} {rows} {cols} {clock.micros()} {windows[cur].wire_log()}")
+                aged = r_inf.startswith("1")
+            if aged:
+                ctx.violation("no upload although more than the configured time has passed since this terminal received the image", c,
+                              {"step": step, "window": cur, "id": iid, "configured_seconds": thr_j[2] // 1_000_000, "now_us": clock.micros(),
+                               "terminal_log(id:token:rows:cols:size:time)": windows[cur].wire_log()[:300], "library_terminal_id": t._terminal_id},
+                              key="no-reupload-after-configured-time" if prop == "C04" else "print-without-image")
+            else:
+                ctx.violation(what, c, {"step": step, "window": cur, "id": iid, "terminal_holds": r.split(" ", 1)[1],
+                                        "library_terminal_id": t._terminal_id, "tmux": mode["now"] if tm else None},
+                              key="other-terminal-counts-as-uploaded" if prop == "C04" else "print-without-image")
+
         for step in c["steps"]:
             if step["op"] == "win":
                 cur = step["w"]
                 attach(cur)
                 windows.setdefault(cur, SpecTerminal(cur, layers=layers))
                 ctx.count("window-switches")
+                chain = None
+                continue
+            if step["op"] == "wait":
+                clock.t += _dt.timedelta(microseconds=int(step["us"]))
+                ctx.count("waits:" + ("<1s" if step["us"] < 1_000_000 else "<1h" if step["us"] < 3_600_000_000 else "<1d" if step["us"] < 86_400_000_000 else ">=1d"))
+                continue
+            if step["op"] == "tmux":
+                mode["all"] = None if step["mode"] == "ok" else step["mode"]
+                set_mode(cur)
+                ctx.count("tmux-mode:" + step["mode"])
+                chain = None
                 continue
             e = pool[step["img"] % len(pool)]
             arg = e["image"] if e["image"] is not None else e["path"]
-            token, size, mode = _expected_token(e)
-            if step["op"] == "upload":
-                inst = t.upload(arg, cols=step.get("cols", 2), rows=step.get("rows", 1))
-                iid, rows, cols = inst.id, inst.rows, inst.cols
-            else:
-                ph = t.upload_and_display(arg, cols=step.get("cols", 2), rows=step.get("rows", 1))
-                iid, rows, cols = ph.image_id, ph.end_row - ph.start_row, ph.end_col - ph.start_col
+            token, size, _mode = _expected_token(e)
+            kw = {}
+            if "force" in step:
+                kw["force_upload"] = bool(step["force"])
+            forced = bool(step.get("force", cfg.get("force_upload", False)))
+            unreachable = bool(tm) and mode["now"] != "ok"
+            t_before = clock.micros()
+            refused, broken = None, False
+            try:
+                if step["op"] == "upload":
+                    inst = t.upload(arg, cols=step.get("cols", 2), rows=step.get("rows", 1), **kw)
+                    iid, rows, cols = inst.id, inst.rows, inst.cols
+                else:
+                    ph = t.upload_and_display(arg, cols=step.get("cols", 2), rows=step.get("rows", 1), **kw)
+                    iid, rows, cols = ph.image_id, ph.end_row - ph.start_row, ph.end_col - ph.start_col
+            except Exception as ex:          # noqa: BLE001
+                refused = type(ex).__name__
+                if not unreachable:
+                    # nothing stands in the way of this request (the terminal can be identified, the image exists): the display model
+                    # (Model.Display.upload) serves it.  A broken correspondence, not by itself a violation; what was printed is judged,
+                    # and the scenario ends here
+                    ctx.mismatch("terminal-switch-request-raised", c, repr(ex)[:200], "returns")
+                    broken = True
             data = cmd.value()[pos:]
             pos += len(data)
-            ctx.count("uploads:transmitted" if data else "uploads:skipped")
+            shown = disp.value()[dpos:]
+            dpos += len(shown)
             windows[cur].feed(data, clock.micros(), lambda *a: None)
+            if forced:
+                ctx.count("forced-uploads:" + ("per-call" if "force" in step else "configured"))
+            if unreachable:
+                ctx.count("tmux-unreachable:" + ("refused:" + refused if refused else "carried-on"))
+            if refused:
+                # the library refused to work without knowing its terminal: only what it printed (if anything) is judged
+                chain = None
+                if PLACEHOLDER.encode() in shown:
+                    for (pid_, _pl), cells in sorted(decode_placeholders(shown).items()):
+                        judge(pid_, token, 1 + max(r_ for r_, _c in cells), 1 + max(c_ for _r, c_ in cells), step,
+                              "a call that refused to work printed a placeholder for an image the current terminal does not hold")
+                if broken:
+                    break
+                continue
+            ctx.count("uploads:transmitted" if data else "uploads:skipped")
             if zero:
                 # judged by the statement alone: nothing recorded earlier can satisfy a threshold of 0
                 still_needed = t.needs_uploading(iid)
@@ -141,12 +233,25 @@ def check_terminal_switch(ctx, c: dict, prop: str):
                                   {"step": step, "window": cur, "id": iid, "thresholds(uploads,bytes,us)": list(thr), "transmitted_bytes": len(data),
                                    "needs_uploading": still_needed, "library_thresholds": [t._config.reupload_max_uploads_ago,
                                    t._config.reupload_max_bytes_ago, t._config.reupload_max_seconds_ago]}, key="zero-threshold-not-honoured")
-            r = d.ask(f"printok {thr_j[0]} {thr_j[1]} {thr_j[2]} {iid} {token} {rows} {cols} {clock.micros()} {windows[cur].wire_log()}")
-            if not r.startswith("1"):
-                ctx.violation("no upload although the current terminal does not hold the image (it went to another terminal of the session, "
-                              "or was lost)", c, {"step": step, "window": cur, "id": iid, "terminal_holds": r.split(" ", 1)[1],
-                                                  "library_terminal_id": t._terminal_id},
-                              key="other-terminal-counts-as-uploaded" if prop == "C04" else "print-without-image")
+            judge(iid, token, rows, cols, step,
+                  "no upload although the current terminal does not hold the image (it went to another terminal of the session, or was lost)")
+            # C04, "when all of that holds it does not ask for a re-upload": the request repeats the previous one on the same terminal, the
+            # only thing that happened since that one's transmission is time, and less of it than the configured limit
+            req = (cur, step["img"] % len(pool), step.get("cols", 2), step.get("rows", 1))
+            if chain is not None and chain[0] == req and not forced and not zero and not unreachable:
+                age_upper = clock.micros() - chain[1]
+                if age_upper + AGE_GUARD_US < thr[2]:
+                    ctx.count("repeat-within-configured-time:" + ("re-transmitted" if data else "skipped"))
+                    if data and prop == "C04":
+                        ctx.violation("re-upload although the terminal received this image at most "
+                                      f"{age_upper} us ago (configured limit {thr[2]} us) and nothing else since", c,
+                                      {"step": step, "window": cur, "id": iid, "age_upper_bound_us": age_upper, "transmitted_bytes": len(data),
+                                       "library_thresholds": [t._config.reupload_max_uploads_ago, t._config.reupload_max_bytes_ago,
+                                                              t._config.reupload_max_seconds_ago]}, key="reupload-although-image-still-there")
+                else:
+                    ctx.count("repeat-after-configured-time:" + ("re-transmitted" if data else "skipped"))
+            if data or chain is None or chain[0] != req:
+                chain = (req, t_before) if data else None
         t.id_manager.close()
     finally:
         clock.uninstall()
@@ -156,17 +261,123 @@ def check_terminal_switch(ctx, c: dict, prop: str):
         shutil.rmtree(td, ignore_errors=True)
 
 
+S = 1_000_000
+CONFIGURED_SECONDS = [1, 60, 3600, None]         # None: the default (3600) left alone
+
+
+def _tmux_block(rng, wins, layers=None, **extra):
+    tm = {"layers": layers if layers is not None else rng.choice([1, 1, 2]), "server_pid": 4000, "session": "$3",
+          "clients": {w: {"pid": 4101 + 101 * k, "termname": rng.choice(["xterm-kitty", "xterm-kitty", "xterm-256color"]) if k else "xterm-kitty"}
+                      for k, w in enumerate(wins)}}
+    tm.update(extra)
+    return tm
+
+
+def _waits_around(limit_s: int):
+    """clock advances (us) placed clear of the limit: well below, just below, just above, far above, more than a day"""
+    lim = limit_s * S
+    return {"below": [lim * 2 // 5, lim - 200_000], "above": [lim + 200_000, 2 * lim, lim + 90 * S, 90_000 * S, 3 * 86_400 * S]}
+
+
+def directed_cases(rng):
+    """Small directed families (general: nothing here names a defect): the age clause at terminal level, forced uploads around
+    a change of the attached terminal, tmux that cannot be reached.  Every case is judged like any terminal-switch scenario."""
+    wins = ["w0", "w1", "w2"]
+    pool = lambda: [["png", 8, 8, rng.randrange(1 << 30)] for _ in range(3)]
+    base = lambda: {"upload_method": "direct", "id_space": rng.choice(["8bit", "24bit"]), "id_subspace": rng.choice(["5:8", "0:256"])}
+    req = lambda img, cols=2, **kw: dict({"op": rng.choice(["upload", "upload_and_display"]), "img": img, "cols": cols, "rows": 1}, **kw)
+    wait = lambda us: {"op": "wait", "us": int(us)}
+    win = lambda w: {"op": "win", "w": w}
+
+    # ---- (a) time: the same image asked for again on the same terminal after less / more than the configured time
+    for k, secs in enumerate(CONFIGURED_SECONDS + [rng.choice([1, 60]), rng.choice([3600, None])]):
+        lim = secs if secs is not None else 3600
+        w = _waits_around(lim)
+        steps = [req(0), wait(w["below"][1]), req(0), wait(400_000), req(0),            # just below; then across the limit without a transmission in between
+                 wait(rng.choice(w["above"][1:])), req(0), wait(w["below"][0]), req(0),
+                 wait(w["above"][0]), req(0)]
+        if k >= len(CONFIGURED_SECONDS):
+            # other traffic in between, another terminal in between: the age is per (image, terminal)
+            steps = [req(0), req(1, 1), wait(w["below"][0]), win("w1"), req(0), wait(w["above"][0]), win("w0"), req(0), req(1, 1),
+                     wait(w["below"][1]), req(1, 1), win("w1"), req(0), wait(rng.choice(w["above"])), req(0)]
+        c = {"k": "terminal-switch", "config": base(), "pool": pool(), "steps": steps}
+        if secs is not None:
+            c["config"]["reupload_max_seconds_ago"] = secs
+            if k % 2:
+                c["config_via"] = "overrides"
+        if k in (1, 4):
+            c["tmux"] = _tmux_block(rng, wins)
+        yield c
+
+    # ---- (b) forced uploads right after the attached terminal changed, then back and an ordinary request
+    for k in range(8):
+        configured = k % 2 == 1
+        f = {} if configured else {"force": True}          # the forced request
+        nf = {"force": False} if configured else {}        # the ordinary one
+        x, y = 1, 2
+        shape = k // 2
+        if shape == 0:
+            steps = [req(0, **nf), win("w1"), req(x, **f), win("w0"), req(x, **nf)]
+        elif shape == 1:
+            steps = [win("w1"), req(x, **f), req(y, 1, **nf), win("w0"), req(x, **nf), req(y, 1, **nf)]
+        elif shape == 2:
+            steps = [req(0, **nf), win("w1"), req(x, **f), win("w2"), req(x, **nf), win("w0"), req(x, **nf), win("w1"), req(x, **nf)]
+        else:
+            steps = [req(x, 3, **nf), win("w1"), req(x, **f), req(x, **f), win("w0"), req(x, **f), win("w2"), req(y, **f), win("w1"), req(y, **nf),
+                     win("w0"), req(x, **nf)]
+        c = {"k": "terminal-switch", "config": base(), "pool": pool(), "steps": steps}
+        if configured:
+            c["config"]["force_upload"] = True
+            if k % 4 == 3:
+                c["config_via"] = "overrides"
+        if k in (2, 3, 4, 7):
+            c["tmux"] = _tmux_block(rng, wins)
+        yield c
+
+    # ---- (c) tmux cannot be reached: for a while, from the start, for some clients only
+    tmode = lambda m: {"op": "tmux", "mode": m}
+    for k, m in enumerate(["silent", "fail", "blank", "silent", "fail", "silent"]):
+        if k < 3:
+            steps = [req(0), tmode(m), req(1), win("w1"), req(1), req(0), tmode("ok"), req(1), win("w0"), req(1)]
+            tm = _tmux_block(rng, wins)
+        elif k == 3:
+            steps = [req(0), win("w1"), req(0), win("w0"), tmode("ok"), req(0)]
+            tm = _tmux_block(rng, wins, mode=m)                # already when the object is created
+        elif k == 4:
+            steps = [req(0), win("w1"), req(1), win("w2"), req(1), req(0), win("w0"), req(1), win("w2"), tmode("ok"), req(1)]
+            tm = _tmux_block(rng, wins)
+            tm["clients"]["w1"]["reach"] = tm["clients"]["w2"]["reach"] = m
+        else:
+            steps = [req(0), win("w1"), req(0), req(1), win("w0"), req(1), win("w1"), req(1)]
+            tm = _tmux_block(rng, wins)
+            tm["clients"]["w1"]["reach"] = m
+        yield {"k": "terminal-switch", "config": base(), "pool": pool(), "steps": steps, "tmux": tm}
+
+
 def cases(rng, n):
+    yield from directed_cases(rng)
     for _ in range(n):
         steps = []
         wins = ["w0", "w1", "w2"]
         cur, sent, after_switch = "w0", [], False
+        in_tmux = rng.random() < 0.35
+        secs = rng.choice(CONFIGURED_SECONDS) if rng.random() < 0.3 else "-"
+        waits = _waits_around(3600 if secs in (None, "-") else secs)
+        waits = waits["below"] + waits["above"]
+        p_wait = 0.25 if secs != "-" else 0.05
+        p_force = rng.choice([0.0, 0.0, 0.25])
+        unreachable = None
         for _j in range(rng.randrange(4, 11)):
             r = rng.random()
             if r < 0.3 and not after_switch:
                 cur = rng.choice([w for w in wins if w != cur] if rng.random() < 0.9 else wins)
                 steps.append({"op": "win", "w": cur})
                 after_switch = True
+            elif r < 0.3 + p_wait and steps and steps[-1]["op"] != "wait":
+                steps.append({"op": "wait", "us": rng.choice(waits)})
+            elif in_tmux and rng.random() < 0.08:
+                unreachable = None if unreachable else rng.choice(["silent", "fail", "blank"])
+                steps.append({"op": "tmux", "mode": unreachable or "ok"})
             else:
                 # right after a switch, mostly ask for an image (with the geometry) that some other window already received
                 if sent and rng.random() < (0.85 if after_switch else 0.4):
@@ -174,19 +385,23 @@ def cases(rng, n):
                 else:
                     img, cols = rng.randrange(3), rng.randrange(1, 4)
                 sent.append((img, cols))
-                steps.append({"op": rng.choice(["upload", "upload_and_display"]), "img": img, "cols": cols, "rows": 1})
+                st = {"op": rng.choice(["upload", "upload_and_display"]), "img": img, "cols": cols, "rows": 1}
+                if rng.random() < (2 * p_force if after_switch else p_force):
+                    st["force"] = True
+                steps.append(st)
                 after_switch = False
         c = {"k": "terminal-switch", "config": {"upload_method": "direct", "id_space": rng.choice(["8bit", "24bit"]),
                                                 "id_subspace": rng.choice(["5:8", "0:256"])},
              "pool": [["png", 8, 8, rng.randrange(1 << 30)] for _ in range(3)], "steps": steps}
-        r = rng.random()
-        if r < 0.35:
+        if in_tmux:
             # inside tmux: the windows are tmux clients of one server and session (same terminal emulator, or another one)
-            c["tmux"] = {"layers": rng.choice([1, 1, 2]), "server_pid": 4000, "session": "$3",
-                         "clients": {w: {"pid": 4101 + 101 * k, "termname": rng.choice(["xterm-kitty", "xterm-kitty", "xterm-256color"]) if k else "xterm-kitty"}
-                                     for k, w in enumerate(wins)}}
+            c["tmux"] = _tmux_block(rng, wins)
         r = rng.random()
-        if r < 0.35:
+        if secs not in ("-", None):
+            c["config"]["reupload_max_seconds_ago"] = secs
+            if rng.random() < 0.5:
+                c["config_via"] = "overrides"
+        elif r < 0.35:
             # non-default re-upload thresholds incl. 0 ("every request transmits"), through keywords or config_overrides
             name, vals = rng.choice([("reupload_max_uploads_ago", [0, 0, 1, 2, 3]), ("reupload_max_bytes_ago", [0]), ("reupload_max_seconds_ago", [0])])
             c["config"][name] = rng.choice(vals)
